@@ -33,7 +33,6 @@ func (f *funcID) Register(p *Process) (fid uint32) {
 
 	f.list[fid] = p
 	p.Id = fid
-	p.Variables.process = p
 
 	f.mutex.Unlock()
 
